@@ -283,6 +283,47 @@ pub fn run(outdir: &str, seed: u64, thorough: bool) -> serde_json::Value {
         }
     }
 
+    // ---- DataType level: the four laws on the implementation, all modelled variants, cross-variant pairs ----
+    {
+        use crate::typegen::*;
+        use qrlew::data_type::{injection::{Injection as _, InjectInto as _}, value::Value, DataType, DataTyped as _, Variant as _};
+        // membership up to the canonical injection the type-level operations themselves use (typegen::embed)
+        let mem_dt = |t: &DataType, v: &Value| -> bool { member(t, v) };
+        let nd = if thorough { 60000 } else { 4000 };
+        for k in 0..nd {
+            let mut r = rng.fork();
+            let ta = gen_ty(&mut r, 2);
+            // B: independent, or a widened / narrowed copy of A so that subset and intersection are often non-trivial
+            let tb = match r.below(3) { 0 => gen_ty(&mut r, 2), 1 => widen(&ta, &mut r), _ => { let x = gen_ty(&mut r, 1); if r.chance(1, 2) && !matches!(x, Ty::Opt(_)) { Ty::Opt(Box::new(x)) } else { x } } };
+            let (a, b) = (to_dt(&ta), to_dt(&tb));
+            // discriminating class for the known finding on struct unions: a struct on one side, different shapes
+            let class = if (has_struct(&ta) || has_struct(&tb)) && shape(&ta) != shape(&tb) { "struct-with-different-field-set" } else { "other" };
+            let va: Vec<Value> = (0..3).map(|_| sample(&ta, &mut r)).collect();
+            let vb: Vec<Value> = (0..3).map(|_| sample(&tb, &mut r)).collect();
+            let res = catch_unwind(AssertUnwindSafe(|| (a.is_subset_of(&b), a.super_union(&b).ok(), a.super_intersection(&b).ok())));
+            st.evaluations += 1;
+            let (sub, un, inter) = match res { Ok(x) => x, Err(e) => { st.bump("dt_panicked"); if st.notes.len() < 5 { st.notes.push(format!("panic on {} vs {}: {}", a, b, panic_msg(e))); } continue; } };
+            st.distinct.insert(hash_str(&format!("{}|{}", a, b)));
+            st.bump(if sub { "dt_subset_true" } else { "dt_subset_false" });
+            if un.is_some() { st.bump("dt_union_ok"); } if inter.is_some() { st.bump("dt_intersection_ok"); }
+            for v in va.iter().chain(vb.iter()) {
+                let own = v.data_type();
+                if !own.contains(v) { st.violation(json!({"kind":"value-not-in-own-type","value":v.to_string(),"own_type":own.to_string()})); }
+            }
+            for v in va.iter() {
+                if !a.contains(v) { continue; }
+                if sub && !mem_dt(&b, v) { st.violation(json!({"kind":"dt-subset-unsound","class":class,"a":a.to_string(),"b":b.to_string(),"value":v.to_string()})); }
+                if let Some(u) = &un { if !mem_dt(u, v) { st.bump(&format!("dtviol_union_{}", class)); st.violation(json!({"kind":"dt-union-lost-value","class":class,"a":a.to_string(),"b":b.to_string(),"union":u.to_string(),"value":v.to_string(),"from":"a"})); } }
+                if let Some(i) = &inter { if b.contains(v) && !mem_dt(i, v) { st.violation(json!({"kind":"dt-intersection-lost-value","class":class,"a":a.to_string(),"b":b.to_string(),"intersection":i.to_string(),"value":v.to_string()})); } }
+            }
+            for v in vb.iter() {
+                if !b.contains(v) { continue; }
+                if let Some(u) = &un { if !mem_dt(u, v) { st.violation(json!({"kind":"dt-union-lost-value","class":class,"a":a.to_string(),"b":b.to_string(),"union":u.to_string(),"value":v.to_string(),"from":"b"})); } }
+                if let Some(i) = &inter { if a.contains(v) && !mem_dt(i, v) { st.violation(json!({"kind":"dt-intersection-lost-value","class":class,"a":a.to_string(),"b":b.to_string(),"intersection":i.to_string(),"value":v.to_string()})); } }
+            }
+            if k < 1 { st.sample(json!({"stream":"datatype-laws","a":a.to_string(),"b":b.to_string(),"a_subset_b":sub,"union":un.map(|u| u.to_string()),"intersection":inter.map(|u| u.to_string())})); }
+        }
+    }
     let header = "From QV Require Import Intervals.Model Corr.Lib Corr.C11.";
     let f1 = write_shards(outdir, "c11_hist", header, "list op * list (option (N * Z)) * option (list (Z * Z))", "hist_check", &hist_cases, if thorough { 400 } else { 100 });
     let f2 = write_shards(outdir, "c11_pair", header, "list (Z*Z) * list (Z*Z) * Z * (list (Z*Z) * list (Z*Z) * (bool * bool * bool * bool))", "pair_check", &pair_cases, if thorough { 800 } else { 200 });
